@@ -75,11 +75,28 @@ def run(ctx):
             continue
         # two independent variables: every function that stores one must write the other
         lonely = []
+
+        def writes_alloc_transitively(fn_body, depth=3):
+            if state_vars(F, [fn_body], ATOMIC_W) & s_alloc:
+                return True
+            if depth == 0:
+                return False
+            for (_k, targets, _bid, _bi) in F.callees(fn_body.id):
+                for tg in targets:
+                    tb = F.bodies.get(tg)
+                    if tb is not None and tb.crate == "d_engine_core" and writes_alloc_transitively(tb, depth - 1):
+                        return True
+            return False
         for bid, b in F.bodies.items():
             if b.crate != "d_engine_core" or is_test_body(b) or b.parent is not None:
                 continue
             w = state_vars(F, [b], ATOMIC_W)
             if w & s_start and not (w & s_alloc):
+                # a helper that writes the one variable is fine when every caller (it is treated as inlined) writes the other
+                callers = [F.bodies[x[0]] for x in F.callers_of(lambda k, root=b.id: k == root) if x[0] != b.id and x[0] in F.bodies]
+                callers = [c for c in callers if not is_test_body(c)]
+                if callers and all(writes_alloc_transitively(c) for c in callers):
+                    continue
                 lonely.append(fkey(b))
         via = sorted(strip_generics(x[1]).split("::")[-1] for x in s.sources if x[0] == "call" and "RaftLog::" in strip_generics(x[1]))
         if s_start and not lonely:
